@@ -654,6 +654,15 @@ impl ToolCallCollector {
                         .unwrap_or_default();
 
                     if let (Some(call_id), Some(name)) = (call_id, name) {
+                        // A provider may repeat `output_item.done` (or reuse a call_id across
+                        // items); a call id is executed and answered once.
+                        if self
+                            .completed_function_calls
+                            .iter()
+                            .any(|call| call.call_id == call_id)
+                        {
+                            return;
+                        }
                         self.completed_function_calls.push(FunctionCallItem {
                             output_index,
                             call_id,
